@@ -6,7 +6,6 @@ from common import *
 from props import c21_gen as G
 from props import c22_sites
 
-CLS_SMITH_CYCLE = "smith_implements_cycle_order"
 SITES_V = COQ / "theories" / "Det" / "Sites.v"
 COVERED_V = COQ / "theories" / "Det" / "Covered.v"
 
@@ -123,8 +122,15 @@ def smith_cases(rng, quick):
     selfc = "interface A implements A { a: Int } interface B implements A { b: Int } type Query { x: Int }"
     for label, b in dists[:12] + dists[-4:]:
         out.append((f"with-acyclic-{label}", "with", b, acyclic, False))
-    for label, b in dists[3:9]:
+    # seed documents whose implements graph has a cycle: topo_order_parents_first takes its fallback branch (which
+    # enumerated a std HashMap before the repair of smith_implements_cycle_order; now node-index = insertion order)
+    cyclic3 = ("interface A implements C { a: Int } interface B implements A { b: Int } interface C implements B { c: Int } "
+               "interface F implements C & A { f: Int } type T implements A & B & C { a: Int b: Int c: Int } type Query { x: Int }")
+    long_ones = [d for d in dists if d[0] in ("uniform-64", "uniform-500", "uniform-3000", "ascending-500", "pattern-3000",
+                                              "small-alphabet-3000")]
+    for label, b in dists[3:9] + long_ones + dists[-4:]:
         out.append((f"with-cyclic-{label}", "with", b, cyclic, True))
+        out.append((f"with-cyclic3-{label}", "with", b, cyclic3, True))
         out.append((f"with-self-cycle-{label}", "with", b, selfc, True))
     return out
 
@@ -244,10 +250,10 @@ def run_inner(ctx, quick, sites, changed):
         smeta[line] = (label, cyc, seed)
     runs = run_processes(impl, "c22_smith", slines, nproc)
     compare_runs(ctx, "c22_smith", slines, {}, runs,
-                 classify=lambda l: CLS_SMITH_CYCLE if smeta[l][1] else None,
                  describe=lambda l: f"{smeta[l][0]}: {len(l.split(' ')[2]) // 2} bytes" + (f", seed document: {smeta[l][2]}" if smeta[l][2] else ""))
     ctx.cov["families"]["c22_smith"]["documents_built"] = sum(" doc=" in o for o in runs[0])
     ctx.cov["families"]["c22_smith"]["builder_errors"] = sum(" err=" in o for o in runs[0])
+    ctx.cov["families"]["c22_smith"]["seed_documents_with_implements_cycle"] = sum(1 for l in slines if smeta[l][1])
     # (3) a site without a lemma and no concrete difference found: name it
     if new_sites and not ctx.violations:
         ctx.violation({"what": "the source enumerates a hash-ordered container at a place Det/Covered.v has no lemma for "
@@ -263,7 +269,8 @@ def run_inner(ctx, quick, sites, changed):
         "arguments, deep merges, several undefined things on one line, a schema with many errors, a sample of the C21 "
         "structure corpus, seeded random documents. c22_revalidate: validate, into_inner, add fields of all five built-in "
         "scalar types, re-validate, `types` order and introspection. c22_smith: DocumentBuilder::new / with_document on byte "
-        "strings of six distributions and seven lengths. Det/Sites.v is regenerated from the source tree first.")
+        "strings of six distributions and seven lengths; with_document also on three seed documents whose interfaces "
+        "implement each other (the fallback branch of topo_order_parents_first). Det/Sites.v is regenerated from the source tree first.")
     ctx.cov["exhaustive"] = False
     ctx.assumptions += [
         "the scanner's type resolution is syntactic (driver/props/c22_sites.py docstring); the model of the code around each "
